@@ -1,5 +1,6 @@
 mod c07;
 mod c11;
+mod c17x;
 mod cxxgen;
 mod drive;
 mod front;
